@@ -430,3 +430,96 @@ pub fn huge_prog(half: usize, with_choice: bool) -> Prog {
     p.roots = vec![r];
     p
 }
+
+/// Programs in which the operands of a binary op are used again afterwards
+/// in every pattern (which decides whether the allocator lets the output share
+/// a register with the left operand, the right operand, or neither):
+/// b(x,y)+x, b(x,y)+y, x+b(x,y), b(x,y)-b(y,x), b(b(x,y),x), b(x,b(x,y)),
+/// b(y,b(x,y)), b(x,x)+x, b(-x,y)+x, b(x,-y)*(-y), b(x,y)+x+y, and the same
+/// with every node exported
+pub fn reuse_patterns(b: B) -> Vec<Prog> {
+    let mut out = vec![];
+    let mk = |f: &dyn Fn(&mut Prog, usize, usize) -> usize| {
+        let mut p = Prog::default();
+        let x = p.push(POp::Var(0));
+        let y = p.push(POp::Var(1));
+        let r = f(&mut p, x, y);
+        p.roots = vec![r];
+        p
+    };
+    out.push(mk(&|p, x, y| {
+        let o = p.push(POp::Bin(b, x, y));
+        p.push(POp::Bin(B::Add, o, x))
+    }));
+    out.push(mk(&|p, x, y| {
+        let o = p.push(POp::Bin(b, x, y));
+        p.push(POp::Bin(B::Add, o, y))
+    }));
+    out.push(mk(&|p, x, y| {
+        let o = p.push(POp::Bin(b, x, y));
+        p.push(POp::Bin(B::Sub, x, o))
+    }));
+    out.push(mk(&|p, x, y| {
+        let o = p.push(POp::Bin(b, x, y));
+        let q = p.push(POp::Bin(b, y, x));
+        p.push(POp::Bin(B::Sub, o, q))
+    }));
+    out.push(mk(&|p, x, y| {
+        let o = p.push(POp::Bin(b, x, y));
+        p.push(POp::Bin(b, o, x))
+    }));
+    out.push(mk(&|p, x, y| {
+        let o = p.push(POp::Bin(b, x, y));
+        p.push(POp::Bin(b, x, o))
+    }));
+    out.push(mk(&|p, x, y| {
+        let o = p.push(POp::Bin(b, x, y));
+        p.push(POp::Bin(b, y, o))
+    }));
+    out.push(mk(&|p, x, _y| {
+        let o = p.push(POp::Bin(b, x, x));
+        p.push(POp::Bin(B::Add, o, x))
+    }));
+    out.push(mk(&|p, x, y| {
+        let n = p.push(POp::Un(U::Neg, x));
+        let o = p.push(POp::Bin(b, n, y));
+        p.push(POp::Bin(B::Add, o, x))
+    }));
+    out.push(mk(&|p, x, y| {
+        let n = p.push(POp::Un(U::Neg, y));
+        let o = p.push(POp::Bin(b, x, n));
+        p.push(POp::Bin(B::Mul, o, n))
+    }));
+    out.push(mk(&|p, x, y| {
+        let o = p.push(POp::Bin(b, x, y));
+        let s = p.push(POp::Bin(B::Add, o, x));
+        p.push(POp::Bin(B::Add, s, y))
+    }));
+    out
+}
+
+/// The same for a unary op: u(x)+x, x-u(x), u(u(x))+x, u(x)*u(x)+x
+pub fn reuse_patterns_unary(u: U) -> Vec<Prog> {
+    let mut out = vec![];
+    let mk = |f: &dyn Fn(&mut Prog, usize) -> usize| {
+        let mut p = Prog::default();
+        let x = p.push(POp::Var(0));
+        let r = f(&mut p, x);
+        p.roots = vec![r];
+        p
+    };
+    out.push(mk(&|p, x| {
+        let o = p.push(POp::Un(u, x));
+        p.push(POp::Bin(B::Add, o, x))
+    }));
+    out.push(mk(&|p, x| {
+        let o = p.push(POp::Un(u, x));
+        p.push(POp::Bin(B::Sub, x, o))
+    }));
+    out.push(mk(&|p, x| {
+        let o = p.push(POp::Un(u, x));
+        let q = p.push(POp::Un(u, o));
+        p.push(POp::Bin(B::Add, q, x))
+    }));
+    out
+}
